@@ -440,6 +440,471 @@ End RunGen.
 End Records.
 
 (* ------------------------------------------------------------------ *)
+(* G. geometry of the image shifts                                     *)
+(* ------------------------------------------------------------------ *)
+Section PerGeom.
+Variable d : nat.
+Hypothesis Hd : (0 < d)%nat.
+
+(* unwrapped coordinates of the copy of cell c' displaced by s boxes, level l *)
+Definition uimg (l : Z) (c' s : list Z) : list Z := map2 (fun cj sj => cj + 2 ^ l * sj) c' s.
+Definition cubeb (r : Z) (o : list Z) : bool := Nat.eqb (length o) d && inbox (- r) r o.
+(* the copy s of cell c' is in the interaction list of cell c (level l) / in the neighbour list of leaf c *)
+Definition fimgb (l : Z) (c c' s : list Z) : bool :=
+  Nat.eqb (length s) d && cubeb 3 (vsub (uimg l c' s) c) && negb (too_close (vsub (uimg l c' s) c))
+  && parents_adjacent c (map2 Z.add c (vsub (uimg l c' s) c)).
+Definition nimgb (l : Z) (c c' s : list Z) : bool :=
+  Nat.eqb (length s) d && cubeb 1 (vsub (uimg l c' s) c) && negb (forallb (Z.eqb 0) (vsub (uimg l c' s) c)).
+
+Definition farn (l x a : Z) (s : list Z) : nat :=
+  sumn (fun sc => b2n ((fst sc =? a) && veqb s (img_shift d l x (dec7 d (snd sc))))) (ilist_spec d true l x).
+Definition upn (L a b : Z) (s : list Z) : nat :=
+  sumn (fun sc => b2n ((fst sc =? b) && veqb s (img_shift d L a (dec3 d (snd sc))))) (nlist_spec d true L true a).
+Definition upn' (L a b : Z) (s : list Z) : nat :=
+  sumn (fun sc => b2n ((fst sc =? b) && veqb s (map Z.opp (img_shift d L a (dec3 d (snd sc))))))
+       (nlist_spec d true L true a).
+
+Lemma cubeb_In r o : cubeb r o = true <-> In o (cube d (- r) r).
+Proof.
+  unfold cubeb. rewrite andb_true_iff, Nat.eqb_eq. symmetry. apply (In_cs d (- r) r o).
+Qed.
+
+Lemma img_shift_map l x o : img_shift d l x o = map (fun z => z / 2 ^ l) (map2 Z.add (unbox d x) o).
+Proof.
+  unfold img_shift. generalize (unbox d x). intros c. revert o.
+  induction c as [|a c IH]; intros [|y o]; cbn [map2 map]; try reflexivity. rewrite IH. reflexivity.
+Qed.
+
+Lemma img_shift_length l x o : length o = d -> length (img_shift d l x o) = d.
+Proof. intros Ho. unfold img_shift. rewrite map2_length; rewrite unbox_length; lia. Qed.
+
+Lemma uimg_length l c' s : length c' = length s -> length (uimg l c' s) = length c'.
+Proof. intros E. unfold uimg. apply map2_length. exact E. Qed.
+
+Lemma uimg_nth l c' s j : length c' = length s -> (j < length c')%nat ->
+  nth j (uimg l c' s) 0 = nth j c' 0 + 2 ^ l * nth j s 0.
+Proof. intros E Hj. unfold uimg. apply (map2_nth (fun cj sj => cj + 2 ^ l * sj) 0 0 0); assumption. Qed.
+
+Lemma floor_wrap_iff l : 0 <= l -> forall u c' s, length u = length c' -> Forall (fun z => 0 <= z < 2 ^ l) c' ->
+  (wrap l u = c' /\ map (fun z => z / 2 ^ l) u = s) <-> (u = uimg l c' s /\ length s = length c').
+Proof.
+  intros Hl. pose proof (pow2_pos l Hl) as HP. unfold wrap, uimg.
+  induction u as [|x u IH]; intros [|y c'] s Hlen HF; cbn [length] in Hlen; try lia.
+  - cbn [map map2]. split.
+    + intros [_ <-]. split; reflexivity.
+    + intros [_ E]. destruct s; [split; reflexivity|discriminate].
+  - inversion HF as [|? ? Hy HF']; subst. cbn [map].
+    destruct s as [|z s]; [split; intros [E1 E2]; discriminate|].
+    cbn [map2 length]. specialize (IH c' s ltac:(lia) HF'). split.
+    + intros [E1 E2]. injection E1 as E1a E1b. injection E2 as E2a E2b.
+      destruct (proj1 IH (conj E1b E2b)) as [Eu Es]. split; [|lia]. f_equal; [|exact Eu].
+      subst y z. rewrite Z.add_comm. apply Z.div_mod. lia.
+    + intros [E1 E2]. injection E1 as E1a E1b. assert (E2' : length s = length c') by lia.
+      destruct (proj2 IH (conj E1b E2')) as [Ew Em].
+      split; f_equal; try assumption.
+      * subst x. replace (y + 2 ^ l * z) with (y + z * 2 ^ l) by ring. rewrite Z_mod_plus_full. apply Z.mod_small. lia.
+      * subst x. replace (y + 2 ^ l * z) with (y + z * 2 ^ l) by ring. rewrite Z.div_add by lia. rewrite Z.div_small by lia. lia.
+Qed.
+
+Lemma Forall_range_of_nth l c : (forall j, (j < length c)%nat -> 0 <= nth j c 0 < 2 ^ l) -> Forall (fun z => 0 <= z < 2 ^ l) c.
+Proof. intros Hn. apply Forall_nthZ. exact Hn. Qed.
+
+(* the entry of offset o is the copy s of the cell c' iff o = (c' + 2^l s) - c *)
+Lemma key_img l c c' o s : 0 <= l -> length c = d -> length c' = d -> length o = d ->
+  Forall (fun z => 0 <= z < 2 ^ l) c' ->
+  (box d (wrap l (map2 Z.add c o)) =? box d c') && veqb s (map (fun z => z / 2 ^ l) (map2 Z.add c o))
+  = veqb o (vsub (uimg l c' s) c) && Nat.eqb (length s) d.
+Proof.
+  intros Hl Hc Hc' Ho HF. apply eq_true_iff_eq. rewrite !andb_true_iff, Z.eqb_eq, !veqb_eq, Nat.eqb_eq.
+  assert (Hco : length (map2 Z.add c o) = d) by (rewrite map2_length; lia).
+  assert (Hnn : Forall (fun z => 0 <= z) c') by (revert HF; apply Forall_impl; intros z Hz; lia).
+  assert (Hlc : length (map2 Z.add c o) = length c') by lia.
+  split.
+  - intros [Eb Es]. apply box_inj in Eb;
+      [|exact Hd|rewrite wrap_length; exact Hco|exact Hc'|apply wrap_nonneg; exact Hl|exact Hnn].
+    destruct (proj1 (floor_wrap_iff l Hl _ c' s Hlc HF) (conj Eb (eq_sym Es))) as [Eu Hs].
+    split; [|lia]. rewrite <- Eu. unfold vsub. symmetry. apply map2_add_sub. lia.
+  - intros [Eo Hs]. assert (Eu : map2 Z.add c o = uimg l c' s).
+    { rewrite Eo. apply add_vsub. rewrite uimg_length; lia. }
+    assert (Hsc : length s = length c') by lia.
+    destruct (proj2 (floor_wrap_iff l Hl _ c' s Hlc HF) (conj Eu Hsc)) as [Ew Em].
+    split; [rewrite Ew; reflexivity|symmetry; exact Em].
+Qed.
+
+Lemma sumn_cube_pick r (o : list Z) (f : list Z -> nat) :
+  sumn (fun a => if veqb a o then f a else 0%nat) (cube d (- r) r) = if cubeb r o then f o else 0%nat.
+Proof.
+  destruct (cubeb r o) eqn:E.
+  - apply cubeb_In in E. rewrite (sumn_single _ _ o (NoDup_odometer _) E).
+    + rewrite veqb_refl. reflexivity.
+    + intros x _ Hne. rewrite veqb_neq by exact Hne. reflexivity.
+  - apply sumn_zero. intros a Ha. rewrite veqb_neq; [reflexivity|]. intros ->.
+    apply cubeb_In in Ha. congruence.
+Qed.
+
+Lemma unbox_range_F l x : 0 <= l -> 0 <= x < 2 ^ (l * dz d) ->
+  length (unbox d x) = d /\ Forall (fun z => 0 <= z < 2 ^ l) (unbox d x).
+Proof.
+  intros Hl Hx. destruct (unbox_coords d l x Hd Hl Hx) as [Hlen Hr]. split; [exact Hlen|].
+  apply Forall_nthZ. rewrite Hlen. exact Hr.
+Qed.
+
+Lemma farn_eval l x a s : 1 <= l -> 0 <= x < 2 ^ (l * dz d) -> 0 <= a < 2 ^ (l * dz d) ->
+  farn l x a s = b2n (fimgb l (unbox d x) (unbox d a) s).
+Proof.
+  intros Hl Hx Ha. unfold farn. rewrite ilist_spec_sbi by (unfold ilist_active; lia).
+  rewrite sumn_flat_map.
+  destruct (unbox_range_F l x ltac:(lia) Hx) as [Hcl _].
+  destruct (unbox_range_F l a ltac:(lia) Ha) as [Hal HaF].
+  assert (Ea : a = box d (unbox d a)) by (symmetry; apply box_unbox; [exact Hd|lia]).
+  set (c := unbox d x) in *. set (c' := unbox d a) in *.
+  set (os := vsub (uimg l c' s) c).
+  rewrite (sumn_ext_in _ (fun o => if veqb o os
+     then b2n (Nat.eqb (length s) d && negb (too_close o) && parents_adjacent c (map2 Z.add c o)) else 0%nat)).
+  2:{ intros o Ho. apply cube_Forall in Ho. destruct Ho as [Hol Hor].
+      unfold sbi. cbv zeta.
+      destruct (too_close o); [destruct (veqb o os); rewrite ?andb_false_r; reflexivity|].
+      destruct (parents_adjacent c (map2 Z.add c o)); cbn [negb];
+        [|destruct (veqb o os); rewrite ?andb_false_r; reflexivity].
+      rewrite sumn_cons, sumn_nil. cbn [fst snd]. rewrite dec7_enc7 by assumption.
+      rewrite img_shift_map. fold c. rewrite Ea. rewrite (key_img l c c' o s) by (try assumption; lia). fold os.
+      destruct (veqb o os); destruct (Nat.eqb (length s) d); reflexivity. }
+  rewrite (sumn_cube_pick 3). unfold fimgb. fold os.
+  destruct (cubeb 3 os); destruct (Nat.eqb (length s) d); cbn [andb]; reflexivity.
+Qed.
+
+Lemma upn_eval L a b s : 0 <= L -> 0 <= a < 2 ^ (L * dz d) -> 0 <= b < 2 ^ (L * dz d) ->
+  upn L a b s = b2n (nimgb L (unbox d a) (unbox d b) s && lex_positive d (vsub (uimg L (unbox d b) s) (unbox d a))).
+Proof.
+  intros HL Ha Hb. unfold upn. rewrite nlist_spec_sbn.
+  rewrite sumn_flat_map.
+  destruct (unbox_range_F L a HL Ha) as [Hcl _].
+  destruct (unbox_range_F L b HL Hb) as [Hbl HbF].
+  assert (Eb : b = box d (unbox d b)) by (symmetry; apply box_unbox; [exact Hd|lia]).
+  set (c := unbox d a) in *. set (c' := unbox d b) in *.
+  set (os := vsub (uimg L c' s) c).
+  rewrite (sumn_ext_in _ (fun o => if veqb o os
+     then b2n (Nat.eqb (length s) d && negb (forallb (Z.eqb 0) o) && lex_positive d o) else 0%nat)).
+  2:{ intros o Ho. apply cube_Forall in Ho. destruct Ho as [Hol Hor].
+      unfold sbn. cbv zeta.
+      destruct (forallb (Z.eqb 0) o); [destruct (veqb o os); rewrite ?andb_false_r; reflexivity|].
+      destruct (lex_positive d o); cbn [negb andb];
+        [|destruct (veqb o os); rewrite ?andb_false_r; reflexivity].
+      rewrite sumn_cons, sumn_nil. cbn [fst snd]. rewrite dec3_enc3 by assumption.
+      rewrite img_shift_map. fold c. rewrite Eb. rewrite (key_img L c c' o s) by (try assumption; lia). fold os.
+      destruct (veqb o os); destruct (Nat.eqb (length s) d); reflexivity. }
+  rewrite (sumn_cube_pick 1). unfold nimgb. fold os.
+  destruct (cubeb 1 os); destruct (Nat.eqb (length s) d); cbn [andb]; reflexivity.
+Qed.
+
+Lemma map_opp_invol s : map Z.opp (map Z.opp s) = s.
+Proof. rewrite map_map. rewrite <- (map_id s) at 2. apply map_ext. intros x. lia. Qed.
+
+Lemma veqb_opp s v : veqb s (map Z.opp v) = veqb (map Z.opp s) v.
+Proof.
+  apply eq_true_iff_eq. rewrite !veqb_eq. split.
+  - intros ->. apply map_opp_invol.
+  - intros <-. symmetry. apply map_opp_invol.
+Qed.
+
+Lemma upn'_upn L a b s : upn' L a b s = upn L a b (map Z.opp s).
+Proof. unfold upn', upn. apply sumn_ext_in. intros sc _. rewrite veqb_opp. reflexivity. Qed.
+
+Lemma vsub_uimg_opp L : forall ca cb s, length ca = length cb -> length cb = length s ->
+  vsub (uimg L ca (map Z.opp s)) cb = map Z.opp (vsub (uimg L cb s) ca).
+Proof.
+  unfold vsub, uimg. induction ca as [|x ca IH]; intros [|y cb] [|z s] H1 H2; cbn [length] in *; try lia; [reflexivity|].
+  cbn [map map2]. rewrite IH by lia. f_equal. ring.
+Qed.
+
+Lemma inbox_opp r o : inbox (- r) r (map Z.opp o) = inbox (- r) r o.
+Proof. unfold inbox. induction o as [|x o IH]; [reflexivity|]. cbn [map forallb]. rewrite IH. f_equal. lia. Qed.
+
+Lemma allzero_opp o : forallb (Z.eqb 0) (map Z.opp o) = forallb (Z.eqb 0) o.
+Proof. induction o as [|x o IH]; [reflexivity|]. cbn [map forallb]. rewrite IH. f_equal. lia. Qed.
+
+Lemma cubeb_opp r o : cubeb r (map Z.opp o) = cubeb r o.
+Proof. unfold cubeb. rewrite map_length, inbox_opp. reflexivity. Qed.
+
+(* the two half lists together see the image exactly when it is adjacent *)
+Lemma near_total L a b s : 0 <= L -> 0 <= a < 2 ^ (L * dz d) -> 0 <= b < 2 ^ (L * dz d) ->
+  upn L a b s +n upn' L b a s = b2n (nimgb L (unbox d a) (unbox d b) s).
+Proof.
+  intros HL Ha Hb. rewrite upn'_upn, !upn_eval by assumption.
+  destruct (unbox_range_F L a HL Ha) as [Hal _]. destruct (unbox_range_F L b HL Hb) as [Hbl _].
+  set (ca := unbox d a) in *. set (cb := unbox d b) in *.
+  unfold nimgb. rewrite map_length.
+  destruct (Nat.eqb (length s) d) eqn:Es; [|reflexivity]. apply Nat.eqb_eq in Es. cbn [andb].
+  rewrite (vsub_uimg_opp L ca cb s) by lia. rewrite cubeb_opp, allzero_opp.
+  set (o := vsub (uimg L cb s) ca).
+  destruct (cubeb 1 o) eqn:Ec; [|reflexivity]. cbn [andb].
+  destruct (forallb (Z.eqb 0) o) eqn:Ez; [reflexivity|]. cbn [negb andb].
+  apply cubeb_In in Ec. apply cube_Forall in Ec. destruct Ec as [Hol Hor].
+  assert (Hne : o <> repeat 0 d) by (apply (nonzero_eqb0 d o Hol); exact Ez).
+  destruct (per_upper_one_side d o Hol Hor Hne) as [[E1 E2]|[E1 E2]]; rewrite E1, E2; reflexivity.
+Qed.
+
+(* ancestors of an image *)
+Lemma ancv_uimg L l : 0 <= l <= L -> forall cb s, length cb = length s ->
+  ancv L l (uimg L cb s) = uimg l (ancv L l cb) s.
+Proof.
+  intros Hl. unfold ancv, uimg.
+  assert (HP : 0 < 2 ^ (L - l)) by (apply pow2_pos; lia).
+  assert (E : 2 ^ L = 2 ^ l * 2 ^ (L - l)) by (rewrite <- Z.pow_add_r by lia; f_equal; lia).
+  induction cb as [|y cb IH]; intros [|z s] Hlen; cbn [length] in Hlen; try lia; [reflexivity|].
+  cbn [map map2]. rewrite IH by lia. f_equal.
+  rewrite E. replace (y + 2 ^ l * 2 ^ (L - l) * z) with (y + 2 ^ l * z * 2 ^ (L - l)) by ring.
+  rewrite Z.div_add by lia. reflexivity.
+Qed.
+
+Lemma unbox_anc L l x : 0 <= l <= L -> 0 <= x -> unbox d (anc d L l x) = ancv L l (unbox d x).
+Proof.
+  intros Hl Hx. unfold anc, ancv. replace (L - l) with (Z.of_nat (Z.to_nat (L - l))) by lia.
+  apply unbox_div_pow; assumption.
+Qed.
+
+(* ------------------------------------------------------------------ *)
+(* images inside the 3^d adjacent copies: link with Spec/GeometryPer.v  *)
+(* ------------------------------------------------------------------ *)
+Section Img.
+Variables (L : Z) (ca cb s : list Z).
+Hypothesis HL : 1 <= L.
+Hypothesis Hca : length ca = d.
+Hypothesis Hcb : length cb = d.
+Hypothesis Hs : length s = d.
+Hypothesis Rca : forall j, (j < d)%nat -> 0 <= nth j ca 0 < 2 ^ L.
+Hypothesis Rcb : forall j, (j < d)%nat -> 0 <= nth j cb 0 < 2 ^ L.
+Hypothesis Rs : forall j, (j < d)%nat -> -1 <= nth j s 0 <= 1.
+
+Let u := uimg L cb s.
+
+Let Hu : length u = d.
+Proof. unfold u. rewrite uimg_length; lia. Qed.
+
+Let Ru : forall j, (j < d)%nat -> - 2 ^ L <= nth j u 0 < 2 * 2 ^ L.
+Proof.
+  intros j Hj. unfold u. rewrite uimg_nth by lia. pose proof (Rcb j Hj). pose proof (Rs j Hj).
+  assert (0 < 2 ^ L) by (apply pow2_pos; lia). nia.
+Qed.
+
+Lemma nimgb_near : nimgb L ca cb s = true <-> near_img d L ca u.
+Proof.
+  rewrite (near_img_iff d L ca u Hd HL Hca Hu Rca Ru).
+  unfold nimgb. fold u. rewrite Hs, Nat.eqb_refl. cbn [andb].
+  rewrite andb_true_iff, negb_true_iff. unfold cubeb. rewrite vsub_length by lia. rewrite Hu, Nat.eqb_refl. cbn [andb].
+  rewrite adjv_0, inbox_spec, Forall_nthZ, vsub_length, Hu by lia.
+  rewrite <- (vsub_zero_iff d L ca u Hd HL Hca Hu Rca Ru). split.
+  - intros [HB HZ]. split; [rewrite HZ; discriminate|].
+    intros j Hj. specialize (HB j Hj). rewrite vsub_nth in HB by lia. lia.
+  - intros [HZ HB]. split; [|destruct (forallb (Z.eqb 0) (vsub u ca)); [exfalso; apply HZ; reflexivity|reflexivity]].
+    intros j Hj. specialize (HB j Hj). rewrite vsub_nth by lia. lia.
+Qed.
+
+Lemma u_eq_ca : u = ca <-> (cb = ca /\ s = repeat 0 d).
+Proof.
+  split.
+  - intros E.
+    assert (Hj : forall j, (j < d)%nat -> nth j cb 0 = nth j ca 0 /\ nth j s 0 = 0).
+    { intros j Hj. assert (Ej : nth j u 0 = nth j ca 0) by (rewrite E; reflexivity).
+      unfold u in Ej. rewrite uimg_nth in Ej by lia.
+      pose proof (Rca j Hj). pose proof (Rcb j Hj). pose proof (Rs j Hj).
+      assert (0 < 2 ^ L) by (apply pow2_pos; lia).
+      assert (Hc3 : nth j s 0 = -1 \/ nth j s 0 = 0 \/ nth j s 0 = 1) by lia.
+      destruct Hc3 as [E3|[E3|E3]]; rewrite E3 in *; lia. }
+    split.
+    + apply nth_ext with (d := 0) (d' := 0); [lia|]. intros j Hj'. apply Hj. lia.
+    + apply nth_ext with (d := 0) (d' := 0); [rewrite repeat_length; lia|].
+      intros j Hj'. rewrite nth_repeat_lt by lia. apply Hj. lia.
+  - intros [-> ->]. apply nth_ext with (d := 0) (d' := 0); [lia|].
+    intros j Hj'. unfold u. rewrite uimg_nth by (rewrite ?repeat_length; lia).
+    rewrite nth_repeat_lt by lia. lia.
+Qed.
+
+Section Lvl.
+Variable l : Z.
+Hypothesis Hl : 1 <= l <= L.
+
+Let cal := ancv L l ca.
+Let cbl := ancv L l cb.
+Let ul := ancv L l u.
+
+Let cal_len : length cal = d. Proof. unfold cal. rewrite ancv_length. exact Hca. Qed.
+Let cbl_len : length cbl = d. Proof. unfold cbl. rewrite ancv_length. exact Hcb. Qed.
+Let ul_eq : ul = uimg l cbl s. Proof. unfold ul, u, cbl. apply ancv_uimg; lia. Qed.
+Let ul_len : length ul = d. Proof. unfold ul. rewrite ancv_length. exact Hu. Qed.
+Let cal_rng : forall j, (j < d)%nat -> 0 <= nth j cal 0 < 2 ^ l.
+Proof.
+  intros j Hj. unfold cal. rewrite ancv_nth.
+  pose proof (anc_rng L l (nth j ca 0) 0 1 ltac:(lia)) as HR. pose proof (Rca j Hj). lia.
+Qed.
+Let ul_rng : forall j, (j < d)%nat -> - 2 ^ l <= nth j ul 0 < 2 * 2 ^ l.
+Proof.
+  intros j Hj. unfold ul. rewrite ancv_nth.
+  pose proof (anc_rng L l (nth j u 0) (-1) 2 ltac:(lia)) as HR. pose proof (Ru j Hj). lia.
+Qed.
+Let cal_nonneg : Forall (fun x => 0 <= x) cal.
+Proof. apply Forall_nthZ. rewrite cal_len. intros j Hj. apply (cal_rng j Hj). Qed.
+
+Lemma fimgb_far : fimgb l cal cbl s = true <-> far_img d L l ca u.
+Proof.
+  unfold far_img. fold cal ul.
+  rewrite (per_ilist_mem d l cal _ _ Hd ltac:(lia) cal_len cal_nonneg).
+  unfold fimgb. rewrite <- ul_eq. rewrite Hs, Nat.eqb_refl. cbn [andb].
+  assert (H2 : 2 <= 2 ^ l).
+  { change 2 with (2 ^ 1) at 1. apply Z.pow_le_mono_r; lia. }
+  split.
+  - intros HB. apply andb_true_iff in HB. destruct HB as [HB Hpa]. apply andb_true_iff in HB. destruct HB as [Hcu Htc].
+    exists (vsub ul cal). split; [apply cubeb_In in Hcu; exact Hcu|].
+    split; [apply negb_true_iff; exact Htc|]. split; [exact Hpa|].
+    rewrite add_vsub by lia. split; reflexivity.
+  - intros (o & Ho & Htc & Hpa & Ebox & Eenc).
+    pose proof Ho as Ho'. apply cube_Forall in Ho'. destruct Ho' as [Hlen Hor]. rewrite Forall_nthZ, Hlen in Hor.
+    assert (E : o = vsub ul cal).
+    { apply (offset_recover 7 3 3 d l cal o ul Hd ltac:(lia) ltac:(lia) ltac:(lia) cal_len Hlen ul_len).
+      - intros j Hj. specialize (Hor j Hj). pose proof (cal_rng j Hj). pose proof (ul_rng j Hj).
+        cbv beta in Hor. lia.
+      - symmetry. exact Ebox.
+      - symmetry. exact Eenc. }
+    subst o. rewrite Hpa, Htc. rewrite (proj2 (cubeb_In 3 _) Ho). reflexivity.
+Qed.
+End Lvl.
+End Img.
+
+Lemma pow2_double l : 1 <= l -> 2 ^ l = 2 * 2 ^ (l - 1).
+Proof. intros Hl. replace l with (Z.succ (l - 1)) at 1 by lia. rewrite Z.pow_succ_r by lia. reflexivity. Qed.
+
+(* whatever the lists deliver lies inside the 3^d adjacent copies *)
+Lemma fimgb_range l c c' s : 1 <= l -> length c = d -> length c' = d ->
+  (forall j, (j < d)%nat -> 0 <= nth j c 0 < 2 ^ l) -> (forall j, (j < d)%nat -> 0 <= nth j c' 0 < 2 ^ l) ->
+  fimgb l c c' s = true -> length s = d /\ forall j, (j < d)%nat -> -1 <= nth j s 0 <= 1.
+Proof.
+  intros Hl Hc Hc' Rc Rc' HB. unfold fimgb in HB.
+  apply andb_true_iff in HB. destruct HB as [HB Hpa]. apply andb_true_iff in HB. destruct HB as [HB _].
+  apply andb_true_iff in HB. destruct HB as [Hs _]. apply Nat.eqb_eq in Hs. split; [exact Hs|].
+  assert (Hul : length (uimg l c' s) = d) by (rewrite uimg_length; lia).
+  rewrite add_vsub in Hpa by lia.
+  rewrite (parents_adjacent_nth d Hd c _ Hc Hul) in Hpa.
+  intros j Hj. specialize (Hpa j Hj). rewrite uimg_nth in Hpa by lia.
+  pose proof (Rc j Hj) as R1. pose proof (Rc' j Hj) as R2.
+  pose proof (pow2_double l Hl) as E2.
+  assert (HP : 0 < 2 ^ (l - 1)) by (apply pow2_pos; lia).
+  set (P := 2 ^ (l - 1)) in *. rewrite E2 in *.
+  set (sj := nth j s 0) in *. set (cj := nth j c 0) in *. set (cj' := nth j c' 0) in *.
+  destruct (Z_le_gt_dec 2 sj) as [Hbig|Hbig]; [exfalso; assert (2 * P * sj >= 4 * P) by nia; lia|].
+  destruct (Z_le_gt_dec sj (-2)) as [Hsm|Hsm]; [exfalso; assert (2 * P * sj <= - 4 * P) by nia; lia|]. lia.
+Qed.
+
+Lemma nimgb_range L c c' s : 0 <= L -> length c = d -> length c' = d ->
+  (forall j, (j < d)%nat -> 0 <= nth j c 0 < 2 ^ L) -> (forall j, (j < d)%nat -> 0 <= nth j c' 0 < 2 ^ L) ->
+  nimgb L c c' s = true -> length s = d /\ forall j, (j < d)%nat -> -1 <= nth j s 0 <= 1.
+Proof.
+  intros HL Hc Hc' Rc Rc' HB. unfold nimgb in HB.
+  apply andb_true_iff in HB. destruct HB as [HB _]. apply andb_true_iff in HB. destruct HB as [Hs Hcu].
+  apply Nat.eqb_eq in Hs. split; [exact Hs|].
+  assert (Hul : length (uimg L c' s) = d) by (rewrite uimg_length; lia).
+  apply cubeb_In, In_cube in Hcu. destruct Hcu as [_ Hcu].
+  intros j Hj. specialize (Hcu j Hj). rewrite vsub_nth, uimg_nth in Hcu by lia.
+  pose proof (Rc j Hj) as R1. pose proof (Rc' j Hj) as R2.
+  assert (HP : 0 < 2 ^ L) by (apply pow2_pos; lia).
+  set (P := 2 ^ L) in *.
+  set (sj := nth j s 0) in *. set (cj := nth j c 0) in *. set (cj' := nth j c' 0) in *.
+  destruct (Z_le_gt_dec 2 sj) as [Hbig|Hbig]; [exfalso; assert (P * sj >= 2 * P) by nia; lia|].
+  destruct (Z_le_gt_dec sj (-2)) as [Hsm|Hsm]; [exfalso; assert (P * sj <= - 2 * P) by nia; lia|]. lia.
+Qed.
+
+Lemma inbox_nth lo hi s : inbox lo hi s = true <-> forall j, (j < length s)%nat -> lo <= nth j s 0 <= hi.
+Proof. rewrite inbox_spec, Forall_nthZ. reflexivity. Qed.
+
+(* MAIN geometric statement: the level-l interaction lists (l = 1..L) of the ancestors of leaf a, the two half
+   neighbour lists and the leaf itself deliver the copy s of leaf b exactly once when s is in [-1,1]^d
+   (except the leaf's own particle p in the central box), and never otherwise *)
+Theorem geom_once : forall L a b s p q, 1 <= L -> 0 <= a < 2 ^ (L * dz d) -> 0 <= b < 2 ^ (L * dz d) -> (p = q -> a = b) ->
+  sumn (fun l => farn l (anc d L l a) (anc d L l b) s) (zrange 1 L) +n (upn L a b s +n upn' L b a s)
+  +n b2n (negb (q =? p) && (b =? a)) *n b2n (veqb s (repeat 0 d))
+  = b2n (Nat.eqb (length s) d && inbox (-1) 1 s && negb ((q =? p) && veqb s (repeat 0 d))).
+Proof.
+  intros L a b s p q HL Ha Hb Hpq.
+  destruct (unbox_range_F L a ltac:(lia) Ha) as [Hca Fca]. destruct (unbox_range_F L b ltac:(lia) Hb) as [Hcb Fcb].
+  pose proof Fca as Rca. rewrite Forall_nthZ, Hca in Rca. pose proof Fcb as Rcb. rewrite Forall_nthZ, Hcb in Rcb.
+  rewrite near_total by (try assumption; lia).
+  rewrite (sumn_ext_in _ (fun l => b2n (fimgb l (ancv L l (unbox d a)) (ancv L l (unbox d b)) s))).
+  2:{ intros l Hl. apply In_zrange in Hl. rewrite farn_eval; [|lia|apply anc_range; [lia|exact Ha]|apply anc_range; [lia|exact Hb]].
+      rewrite !unbox_anc by lia. reflexivity. }
+  set (ca := unbox d a) in *. set (cb := unbox d b) in *.
+  assert (Hrng : forall l, 1 <= l <= L -> forall c, length c = d -> (forall j, (j < d)%nat -> 0 <= nth j c 0 < 2 ^ L) ->
+            forall j, (j < d)%nat -> 0 <= nth j (ancv L l c) 0 < 2 ^ l).
+  { intros l Hl c Hc Rc j Hj. rewrite ancv_nth. pose proof (anc_rng L l (nth j c 0) 0 1 ltac:(lia)) as HR.
+    pose proof (Rc j Hj). lia. }
+  destruct (Nat.eqb (length s) d && inbox (-1) 1 s) eqn:Ein; cbn [andb].
+  - apply andb_true_iff in Ein. destruct Ein as [Hs Rs]. apply Nat.eqb_eq in Hs.
+    rewrite inbox_nth, Hs in Rs.
+    pose proof (fun l Hl => fimgb_far L ca cb s HL Hca Hcb Hs Rca Rcb Rs l Hl) as Hfar.
+    pose proof (nimgb_near L ca cb s HL Hca Hcb Hs Rca Rcb Rs) as Hnear.
+    pose proof (u_eq_ca L ca cb s HL Hca Hcb Hs Rca Rcb Rs) as Hueq.
+    set (u := uimg L cb s) in *.
+    assert (Hu : length u = d) by (unfold u; rewrite uimg_length; lia).
+    assert (Fu : Forall (fun x => - 2 ^ L <= x < 2 * 2 ^ L) u).
+    { apply Forall_nthZ. rewrite Hu. intros j Hj. unfold u. rewrite uimg_nth by lia.
+      pose proof (Rcb j Hj). pose proof (Rs j Hj). assert (0 < 2 ^ L) by (apply pow2_pos; lia). nia. }
+    assert (Hab : cb = ca <-> b = a).
+    { split; [|intros ->; reflexivity]. intros E. unfold ca, cb in E.
+      rewrite <- (box_unbox d a Hd), <- (box_unbox d b Hd) by lia. rewrite E. reflexivity. }
+    assert (Hfar0 : (forall l, 1 <= l <= L -> ~ far_img d L l ca u) ->
+              sumn (fun l => b2n (fimgb l (ancv L l ca) (ancv L l cb) s)) (zrange 1 L) = 0%nat).
+    { intros Hno. apply sumn_zero. intros l Hl. apply In_zrange in Hl. apply b2n_false.
+      destruct (fimgb l (ancv L l ca) (ancv L l cb) s) eqn:E; [|reflexivity].
+      exfalso. apply (Hno l Hl). apply (Hfar l Hl). exact E. }
+    destruct (per_near_xor_far_once d L ca u Hd HL Hca Hu Fca Fu)
+      as [(Eu & Hnn & Hnf)|[(Nu & Hn & Hnf)|(Nu & Hnn & l & Hl & Hf & Huniq)]].
+    + rewrite (Hfar0 Hnf). apply Hueq in Eu. destruct Eu as [Ecb Es]. apply Hab in Ecb. subst b.
+      rewrite Es, veqb_refl, Z.eqb_refl, !andb_true_r.
+      destruct (nimgb L ca cb (repeat 0 d)) eqn:En; [exfalso; apply Hnn; apply Hnear; rewrite Es; exact En|].
+      destruct (q =? p); reflexivity.
+    + rewrite (Hfar0 Hnf). rewrite (proj2 Hnear Hn).
+      assert (Hz : (b =? a) && veqb s (repeat 0 d) = false).
+      { destruct ((b =? a) && veqb s (repeat 0 d)) eqn:E; [|reflexivity]. exfalso. apply Nu. apply Hueq.
+        apply andb_true_iff in E. destruct E as [E1 E2]. apply Z.eqb_eq in E1. apply veqb_eq in E2.
+        split; [apply Hab; exact E1|exact E2]. }
+      assert (Hz2 : (q =? p) && veqb s (repeat 0 d) = false).
+      { destruct (Z.eqb_spec q p) as [E|E]; [|reflexivity]. cbn [andb].
+        rewrite (Hpq (eq_sym E)), Z.eqb_refl in Hz. exact Hz. }
+      rewrite Hz2. cbn [negb].
+      destruct (q =? p); destruct (b =? a); destruct (veqb s (repeat 0 d)); cbn in *; try discriminate; reflexivity.
+    + rewrite (sumn_single _ (zrange 1 L) l (NoDup_zrange _ _)).
+      * rewrite (proj2 (Hfar l Hl) Hf).
+        destruct (nimgb L ca cb s) eqn:En; [exfalso; apply Hnn; apply Hnear; reflexivity|].
+        assert (Hz : (b =? a) && veqb s (repeat 0 d) = false).
+        { destruct ((b =? a) && veqb s (repeat 0 d)) eqn:E; [|reflexivity]. exfalso. apply Nu. apply Hueq.
+          apply andb_true_iff in E. destruct E as [E1 E2]. apply Z.eqb_eq in E1. apply veqb_eq in E2.
+          split; [apply Hab; exact E1|exact E2]. }
+        assert (Hz2 : (q =? p) && veqb s (repeat 0 d) = false).
+        { destruct (Z.eqb_spec q p) as [E|E]; [|reflexivity]. cbn [andb].
+          rewrite (Hpq (eq_sym E)), Z.eqb_refl in Hz. exact Hz. }
+        rewrite Hz2. cbn [negb].
+        destruct (q =? p); destruct (b =? a); destruct (veqb s (repeat 0 d)); cbn in *; try discriminate; reflexivity.
+      * apply In_zrange. exact Hl.
+      * intros l' Hl' Hne. apply In_zrange in Hl'. apply b2n_false.
+        destruct (fimgb l' (ancv L l' ca) (ancv L l' cb) s) eqn:E; [|reflexivity].
+        exfalso. apply Hne. apply (Huniq l' Hl'). apply (Hfar l' Hl'). exact E.
+  - assert (Hout : forall (P : Prop), (length s = d /\ (forall j, (j < d)%nat -> -1 <= nth j s 0 <= 1)) -> P).
+    { intros P [Hs Rs]. exfalso. rewrite Hs, Nat.eqb_refl in Ein. cbn [andb] in Ein.
+      rewrite (proj2 (inbox_nth (-1) 1 s)) in Ein; [discriminate|]. rewrite Hs. exact Rs. }
+    rewrite sumn_zero.
+    2:{ intros l Hl. apply In_zrange in Hl. apply b2n_false.
+        destruct (fimgb l (ancv L l ca) (ancv L l cb) s) eqn:E; [|reflexivity].
+        apply Hout. apply (fimgb_range l (ancv L l ca) (ancv L l cb) s); try assumption; try lia;
+          try (rewrite ancv_length; assumption); apply Hrng; assumption. }
+    destruct (nimgb L ca cb s) eqn:En.
+    { apply Hout. apply (nimgb_range L ca cb s); try assumption; lia. }
+    destruct (veqb s (repeat 0 d)) eqn:Ez.
+    { apply Hout. apply veqb_eq in Ez. subst s. split; [apply repeat_length|].
+      intros j Hj. rewrite nth_repeat_lt by exact Hj. lia. }
+    cbn [b2n]. rewrite Nat.mul_0_r. reflexivity.
+Qed.
+
+End PerGeom.
+
+(* ------------------------------------------------------------------ *)
 (* 5. a well-formed tree, periodic lists                               *)
 (* ------------------------------------------------------------------ *)
 Definition zb (d : nat) (s : list Z) : nat := b2n (veqb s (repeat 0 d)).
@@ -630,3 +1095,400 @@ Proof.
   - intros l x y. rewrite L2. apply L1.
   - intros p y. rewrite R2. apply R1.
 Qed.
+
+(* ------------------------------------------------------------------ *)
+(* 7. the top tree                                                     *)
+(* ------------------------------------------------------------------ *)
+Definition is_base (c : tcall) : bool :=
+  match c with TM2M_base _ _ => true | TL2L_base _ _ => true | _ => false end.
+
+Lemma prun_app k a b w : prun d k L (a ++ b) w = prun d k L b (prun d k L a w).
+Proof. unfold prun. apply fold_left_app. Qed.
+
+Lemma prun_real k tr w : prun d k L (map Real tr) w = rrun tr w.
+Proof. revert w. induction tr as [|c tr IH]; intros w; [reflexivity|]. cbn [map]. apply IH. Qed.
+
+Lemma prun_top_state k cs : forall w, p_top (prun d k L (map Top cs) w) = fold_left (tstep d k) cs (p_top w).
+Proof.
+  induction cs as [|c cs IH]; intros w; [reflexivity|]. cbn [map fold_left].
+  change (prun d k L (Top c :: map Top cs) w) with (prun d k L (map Top cs) (pstep d k L w (Top c))).
+  rewrite IH. f_equal. destruct c; reflexivity.
+Qed.
+
+Lemma prun_mid k cs : Forall (fun c => is_base c = false) cs -> forall w,
+  p_mult (prun d k L (map Top cs) w) = p_mult w /\ p_loc (prun d k L (map Top cs) w) = p_loc w /\
+  p_rhs (prun d k L (map Top cs) w) = p_rhs w /\ p_box (prun d k L (map Top cs) w) = p_box w.
+Proof.
+  induction 1 as [|c cs Hc _ IH]; intros w; [repeat split|].
+  change (prun d k L (map Top (c :: cs)) w) with (prun d k L (map Top cs) (pstep d k L w (Top c))).
+  destruct (IH (pstep d k L w (Top c))) as (H1 & H2 & H3 & H4).
+  rewrite H1, H2, H3, H4. destruct c; try discriminate; repeat split.
+Qed.
+
+Notation ch1 := (level1_children d t).
+
+Lemma top_shape k : 0 <= k -> exists mid,
+  top_execute d k 63 t = TM2M_base (k + 3) ch1 :: mid ++ [TL2L_base (k + 3) ch1] /\
+  Forall (fun c => is_base c = false) mid.
+Proof.
+  intros Hk. rewrite top_execute_eq; [|exact Hk|rewrite (height_H d H B mode t Hok); lia].
+  unfold top_M2M, top_L2L.
+  exists (map (fun l => TM2M l (zseq (Z.shiftl 1 (dz d)))) (rev (zrange 3 (k + 2))) ++ top_M2L d k
+          ++ map (fun l => TL2L l [0]) (zrange 3 (k + 2))).
+  split; [cbn [app]; rewrite <- !app_assoc; reflexivity|].
+  apply (proj2 (Forall_app _ _ _)); split.
+  - apply Forall_forall. intros c Hc. apply in_map_iff in Hc. destruct Hc as (l & <- & _). reflexivity.
+  - apply (proj2 (Forall_app _ _ _)); split.
+    + rewrite top_M2L_eq by exact Hk. apply Forall_forall. intros c Hc. apply in_map_iff in Hc.
+      destruct Hc as (l & <- & _). reflexivity.
+    + apply Forall_forall. intros c Hc. apply in_map_iff in Hc. destruct Hc as (l & <- & _). reflexivity.
+Qed.
+
+(* what the final downward call of the top tree writes into every level-1 cell *)
+Definition topv (k : Z) (w : pst) : list ival :=
+  flat_map (fun sg => shiftv sg (flat_map (fun cc => p_mult w 1 (fst cc)) ch1)) (top_run d k (top_execute d k 63 t)).
+
+Lemma top_effect k w : 0 <= k -> p_top w = tinit ->
+  let w2 := prun d k L (map Top (top_execute d k 63 t)) w in
+  p_mult w2 = p_mult w /\ p_rhs w2 = p_rhs w /\
+  (forall l x y, ci (p_loc w2 l x) y
+     = ci (p_loc w l x) y +n (if (l =? 1) && zmem x (cells 1) then ci (topv k w) y else 0%nat)).
+Proof.
+  intros Hk Htop. cbv zeta.
+  assert (Htr : tres (p_top (prun d k L (map Top (top_execute d k 63 t)) w)) = top_run d k (top_execute d k 63 t)).
+  { rewrite prun_top_state, Htop. reflexivity. }
+  unfold topv. rewrite <- Htr. clear Htr.
+  destruct (top_shape k Hk) as (mid & -> & Hmid).
+  cbn [map]. rewrite map_app. cbn [map].
+  change (prun d k L (Top (TM2M_base (k + 3) ch1) :: map Top mid ++ [Top (TL2L_base (k + 3) ch1)]) w)
+    with (prun d k L (map Top mid ++ [Top (TL2L_base (k + 3) ch1)]) (pstep d k L w (Top (TM2M_base (k + 3) ch1)))).
+  rewrite prun_app. set (wa := pstep d k L w (Top (TM2M_base (k + 3) ch1))).
+  destruct (prun_mid k mid Hmid wa) as (M1 & L1 & R1 & B1).
+  set (wb := prun d k L (map Top mid) wa) in *.
+  cbn [prun fold_left pstep p_mult p_loc p_rhs p_top tres].
+  rewrite M1, L1, R1, B1. repeat split.
+  intros l x y. cbn [wa pstep p_loc p_box].
+  rewrite fold_vupd2_ci. f_equal.
+  unfold level1_children. rewrite sumn_map. cbn [fst].
+  change (flat_map cg_cells (levels_of t 1)) with (cells 1).
+  destruct (l =? 1); cbn [andb].
+  - rewrite (sumn_ext_in _ (fun c => if c =? x then ci (flat_map (fun sg => shiftv sg (flat_map (fun cc => p_mult w 1 (fst cc)) (map (fun c => (c, child_code d c)) (cells 1)))) (tL (p_top wb) (k + 3))) y else 0%nat)).
+    2:{ intros c _. rewrite (Z.eqb_sym x c). reflexivity. }
+    rewrite sumn_pick by (apply t_cells_nodup; lia). reflexivity.
+  - apply sumn_zero. reflexivity.
+Qed.
+
+(* the value handed to the top tree: every particle once, zero shift *)
+Lemma below_sum_level l q : 0 <= l < H ->
+  sumn (fun c => below l c q) (cells l) = b2n (valid q).
+Proof.
+  intros Hl. unfold ExactlyOnce.below. destruct (valid q) eqn:Hv; cbn [andb].
+  - rewrite (sumn_ext_in _ (fun c => if c =? anc d L l (lo q) then 1%nat else 0%nat)).
+    2:{ intros c _. rewrite (Z.eqb_sym c). destruct (anc d L l (lo q) =? c); reflexivity. }
+    rewrite sumn_pick_in; [reflexivity|apply t_cells_nodup; exact Hl|apply t_anc_in_cells; assumption].
+  - apply sumn_zero. reflexivity.
+Qed.
+
+Lemma box_count w : MultInvP 1 w -> forall q s,
+  ci (flat_map (fun cc => p_mult w 1 (fst cc)) ch1) (q, s) = b2n (valid q) *n zb d s.
+Proof.
+  intros (Hhi & _) q s. rewrite ci_flat_map. unfold level1_children. rewrite sumn_map. cbn [fst].
+  change (flat_map cg_cells (levels_of t 1)) with (cells 1).
+  rewrite (sumn_ext_in _ (fun c => below 1 c q *n zb d s)) by (intros c _; apply Hhi; lia).
+  rewrite sumn_mul_r, below_sum_level by lia. reflexivity.
+Qed.
+
+Lemma zb_one s : zb d s = 1%nat -> s = zv.
+Proof. unfold zb. destruct (veqb s zv) eqn:E; [intros _; apply veqb_eq; exact E|discriminate]. Qed.
+
+Lemma zb_zv : zb d zv = 1%nat.
+Proof. unfold zb. rewrite veqb_refl. reflexivity. Qed.
+
+Lemma box_zero w : MultInvP 1 w -> forall a, In a (flat_map (fun cc => p_mult w 1 (fst cc)) ch1) -> snd a = zv.
+Proof.
+  intros Hinv [q s] Hin. apply ci_in in Hin. rewrite (box_count w Hinv) in Hin. cbn [snd].
+  apply zb_one. destruct (valid q); destruct (zb d s) as [|[|n]] eqn:E; cbn in Hin; try lia.
+  unfold zb in E. destruct (veqb s zv); discriminate.
+Qed.
+
+Definition farsb (k : Z) (s : list Z) : bool :=
+  Nat.eqb (length s) d && inbox (fst (repetition_interval k)) (snd (repetition_interval k)) s && negb (inbox (-1) 1 s).
+
+Lemma In_far_shifts k s :
+  In s (far_shifts d (fst (repetition_interval k)) (snd (repetition_interval k))) <-> farsb k s = true.
+Proof.
+  unfold far_shifts, farsb. rewrite filter_In, In_cs, !andb_true_iff, Nat.eqb_eq.
+  change (forallb (fun x => Z.abs x <=? 1) s) with (too_close s). rewrite too_close_inbox. tauto.
+Qed.
+
+Lemma sumn_veqb (l : list (list Z)) s : NoDup l ->
+  (In s l -> sumn (fun a => b2n (veqb s a)) l = 1%nat) /\ (~ In s l -> sumn (fun a => b2n (veqb s a)) l = 0%nat).
+Proof.
+  intros Hnd. split.
+  - intros Hin. rewrite (sumn_single _ l s Hnd Hin); [rewrite veqb_refl; reflexivity|].
+    intros x _ Hne. rewrite veqb_neq by congruence. reflexivity.
+  - intros Hn. apply sumn_zero. intros a Ha. rewrite veqb_neq; [reflexivity|]. intros ->. contradiction.
+Qed.
+
+Lemma topv_count k w : 0 <= k -> MultInvP 1 w -> forall q s, ci (topv k w) (q, s) = b2n (valid q && farsb k s).
+Proof.
+  intros Hk Hinv q s. unfold topv. rewrite ci_flat_map.
+  assert (Hh : height t <> 0) by (rewrite (height_H d H B mode t Hok); lia).
+  pose proof (toptree_images_gen d k t Hd Hk Hh) as HP.
+  set (tr := top_run d k (top_execute d k 63 t)) in *.
+  rewrite (sumn_ext_in _ (fun sg => b2n (valid q) *n b2n (veqb s sg))).
+  2:{ intros sg Hsg. apply (Permutation_in _ HP) in Hsg. unfold far_shifts in Hsg. apply filter_In in Hsg.
+      destruct Hsg as [Hsg _]. apply In_cs in Hsg. destruct Hsg as [Hlen _].
+      rewrite (ci_shiftv_zero d sg _ q s Hlen (box_zero w Hinv)), (box_count w Hinv), zb_zv. lia. }
+  rewrite sumn_mul_l, (sumn_perm _ _ _ HP).
+  assert (Hnd : NoDup (far_shifts d (fst (repetition_interval k)) (snd (repetition_interval k)))).
+  { unfold far_shifts. apply NoDup_filter, NoDup_cs. }
+  destruct (sumn_veqb _ s Hnd) as [Hin Hout].
+  destruct (farsb k s) eqn:E.
+  - rewrite Hin by (apply In_far_shifts; exact E). destruct (valid q); reflexivity.
+  - rewrite Hout; [destruct (valid q); reflexivity|]. intros Hc. apply In_far_shifts in Hc. congruence.
+Qed.
+
+(* the state after the upward call and the top tree *)
+Definition run_up_top (k : Z) : pst :=
+  prun d k L (map Real (execute d true 1 (F_P2M + F_M2M) t) ++ map Top (top_execute d k 63 t)) pst0.
+
+Lemma top_execute_neg k : k < 0 -> top_execute d k 63 t = [].
+Proof. intros Hk. unfold top_execute. replace (k <? 0) with true by lia. reflexivity. Qed.
+
+Lemma up_top_state k : -1 <= k ->
+  MultInvP 1 (run_up_top k) /\
+  (forall l x q s, ci (p_loc (run_up_top k) l x) (q, s)
+     = if (l =? 1) && zmem x (cells 1) then b2n (valid q && (0 <=? k) && farsb k s) else 0%nat) /\
+  (forall p y, ci (p_rhs (run_up_top k) p) y = 0%nat).
+Proof.
+  intros Hk. unfold run_up_top. rewrite prun_app, prun_real.
+  destruct (up_state pst0 ltac:(reflexivity)) as (I1 & L1 & R1). cbv zeta in I1, L1, R1.
+  set (w1 := rrun (execute d true 1 (F_P2M + F_M2M) t) pst0) in *.
+  destruct (Z_lt_le_dec k 0) as [Hneg|Hpos].
+  - rewrite top_execute_neg by exact Hneg. cbn [map prun fold_left]. split; [exact I1|]. split.
+    + intros l x q s. rewrite L1. cbn [pst0 p_loc]. rewrite ci_nil.
+      replace (0 <=? k) with false by lia. rewrite andb_false_r. destruct ((l =? 1) && zmem x (cells 1)); reflexivity.
+    + intros p y. rewrite R1. reflexivity.
+  - assert (Htop : p_top w1 = tinit) by (unfold w1; rewrite (proj1 (rrun_top d L _ pst0)); reflexivity).
+    destruct (top_effect k w1 Hpos Htop) as (M2 & R2 & L2). cbv zeta in M2, R2, L2.
+    set (w2 := prun d k L (map Top (top_execute d k 63 t)) w1) in *.
+    split; [|split].
+    + destruct I1 as [Ia Ib]. split; intros; rewrite M2; [apply Ia|apply Ib]; assumption.
+    + intros l x q s. rewrite L2, L1. cbn [pst0 p_loc]. rewrite ci_nil. cbn [Nat.add].
+      rewrite (topv_count k w1 Hpos I1). replace (0 <=? k) with true by lia. rewrite andb_true_r. reflexivity.
+    + intros p y. rewrite R2, R1. reflexivity.
+Qed.
+
+(* ------------------------------------------------------------------ *)
+(* 8. the transfer pass M2L with the periodic lists                    *)
+(* ------------------------------------------------------------------ *)
+(* what the level-l interaction list of cell x delivers *)
+Definition farv (l x : Z) (y : ival) : nat :=
+  if valid (fst y) then farn d l x (anc d L l (lo (fst y))) (snd y) else 0%nat.
+
+Lemma dec_base_rev_length b off : forall n code, length (dec_base_rev n b off code) = n.
+Proof. induction n as [|n IH]; intros code; [reflexivity|]. cbn [dec_base_rev length]. rewrite IH. reflexivity. Qed.
+
+Lemma dec7_length code : length (dec7 d code) = d.
+Proof. unfold dec7, dec_base. rewrite rev_length. apply dec_base_rev_length. Qed.
+
+Lemma dec3_length code : length (dec3 d code) = d.
+Proof. unfold dec3, dec_base. rewrite rev_length. apply dec_base_rev_length. Qed.
+
+Lemma mult_zero w k l b : MultInvP k w -> k <= l <= L -> forall a, In a (p_mult w l b) -> snd a = zv.
+Proof.
+  intros (Hhi & _) Hl [q s] Hin. apply ci_in in Hin. rewrite (Hhi l b q s Hl) in Hin. cbn [snd].
+  apply zb_one. destruct (below l b q) as [|n0]; destruct (zb d s) as [|[|n1]] eqn:E; cbn in Hin; try lia.
+  unfold zb in E. destruct (veqb s zv); discriminate.
+Qed.
+
+Lemma shift_mult w k l b v q s : MultInvP k w -> k <= l <= L -> length v = d ->
+  ci (shiftv v (p_mult w l b)) (q, s) = below l b q *n b2n (veqb s v).
+Proof.
+  intros Hinv Hl Hv. rewrite (ci_shiftv_zero d v _ q s Hv (mult_zero w k l b Hinv Hl)).
+  rewrite (proj1 Hinv l b q zv Hl), zb_zv. lia.
+Qed.
+
+Lemma ilist_sum_p w l x q s : 1 <= l <= L -> In x (cells l) -> MultInvP 1 w ->
+  sumn (fun sc => if zmem (fst sc) (cells l)
+                  then ci (shiftv (img_shift d l x (dec7 d (snd sc))) (p_mult w l (fst sc))) (q, s) else 0%nat)
+       (ilist_cell d true l x) = farv l x (q, s).
+Proof.
+  intros Hl Hx Hinv. pose proof (t_cells_range l x ltac:(lia) Hx) as Hr.
+  rewrite (sumn_perm _ _ _ (ilist_exact d true l x Hd ltac:(lia) Hr)).
+  unfold farv, farn. cbn [fst snd].
+  assert (Hsh : forall sc, ci (shiftv (img_shift d l x (dec7 d (snd sc))) (p_mult w l (fst sc))) (q, s)
+                  = below l (fst sc) q *n b2n (veqb s (img_shift d l x (dec7 d (snd sc))))).
+  { intros sc. apply (shift_mult w 1); [exact Hinv|lia|]. apply img_shift_length; [exact Hd|apply dec7_length]. }
+  destruct (valid q) eqn:Hv.
+  - apply sumn_ext_in. intros sc _. rewrite Hsh. unfold ExactlyOnce.below. rewrite Hv. cbn [andb].
+    destruct (Z.eqb_spec (anc d L l (lo q)) (fst sc)) as [E|E].
+    + rewrite <- E. rewrite (proj2 (zmem_In _ _) (t_anc_in_cells l q ltac:(lia) Hv)). rewrite Z.eqb_refl.
+      cbn [b2n andb]. lia.
+    + rewrite (proj2 (Z.eqb_neq (fst sc) (anc d L l (lo q)))) by congruence.
+      cbn [b2n andb]. destruct (zmem (fst sc) (cells l)); reflexivity.
+  - apply sumn_zero. intros sc _. rewrite Hsh. unfold ExactlyOnce.below. rewrite Hv. cbn [andb b2n].
+    destruct (zmem (fst sc) (cells l)); reflexivity.
+Qed.
+
+Lemma m2l_level_sum_p w l' l x q s : 1 <= l' <= L -> MultInvP 1 w ->
+  sumn (fun e => pcl d w e l x (q, s)) (spec_m2l d true l' (cells l'))
+  = if l' =? l then (if zmem x (cells l') then farv l' x (q, s) else 0%nat) else 0%nat.
+Proof.
+  intros Hl' Hm. unfold spec_m2l. rewrite sumn_flat_map.
+  rewrite (sumn_ext_in _ (fun t' => if t' =? x then
+            (if l' =? l then sumn (fun sc => if zmem (fst sc) (cells l')
+                 then ci (shiftv (img_shift d l' t' (dec7 d (snd sc))) (p_mult w l' (fst sc))) (q, s) else 0%nat)
+                                  (ilist_cell d true l' t') else 0%nat)
+            else 0%nat)).
+  2:{ intros t' _. rewrite sumn_flat_map.
+      destruct (Z.eqb_spec t' x) as [->|Hne]; [destruct (Z.eqb_spec l' l) as [->|Hne]|].
+      - apply sumn_ext_in. intros sc _. rewrite sumn_if_list. cbn [pcl]. rewrite !Z.eqb_refl. reflexivity.
+      - apply sumn_zero. intros sc _. rewrite sumn_if_list. cbn [pcl].
+        destruct (Z.eqb_spec l l'); [congruence|]. destruct (zmem (fst sc) (cells l')); reflexivity.
+      - apply sumn_zero. intros sc _. rewrite sumn_if_list. cbn [pcl].
+        destruct (Z.eqb_spec x t'); [congruence|]. rewrite andb_false_r. destruct (zmem (fst sc) (cells l')); reflexivity. }
+  rewrite sumn_pick by (apply t_cells_nodup; lia).
+  destruct (zmem x (cells l')) eqn:Ex; [|destruct (l' =? l); reflexivity].
+  destruct (l' =? l); [|reflexivity]. apply ilist_sum_p; [exact Hl'|apply zmem_In; exact Ex|exact Hm].
+Qed.
+
+Definition m2l_spec_p : list elem := flat_map (fun l => spec_m2l d true l (cells l)) (zrange 1 L).
+
+Lemma m2l_spec_shape_p e : In e m2l_spec_p -> exists l x b code, e = EM2L l x b code.
+Proof.
+  unfold m2l_spec_p, spec_m2l. intros He. apply in_flat_map in He. destruct He as (l & _ & He).
+  apply in_flat_map in He. destruct He as (x & _ & He). apply in_flat_map in He. destruct He as (sc & _ & He).
+  destruct (zmem (fst sc) (cells l)); [|destruct He]. destruct He as [<-|[]]. eauto.
+Qed.
+
+Lemma m2l_sum_p w l x q s : MultInvP 1 w ->
+  sumn (fun e => pcl d w e l x (q, s)) m2l_spec_p
+  = if (1 <=? l) && (l <=? L) && zmem x (cells l) then farv l x (q, s) else 0%nat.
+Proof.
+  intros Hinv. unfold m2l_spec_p. rewrite sumn_flat_map.
+  rewrite (sumn_ext_in _ (fun l' => if l' =? l then (if zmem x (cells l') then farv l' x (q, s) else 0%nat) else 0%nat)).
+  2:{ intros l' Hl'. apply In_zrange in Hl'. apply m2l_level_sum_p; [lia|exact Hinv]. }
+  rewrite sumn_pick by apply NoDup_zrange. rewrite zmem_zrange.
+  destruct ((1 <=? l) && (l <=? L)); reflexivity.
+Qed.
+
+Lemma m2l_effect_p w : MultInvP 1 w ->
+  (forall l x y, ci (p_mult (rrun (pass_M2L d true 1 t) w) l x) y = ci (p_mult w l x) y) /\
+  (forall l x q s, ci (p_loc (rrun (pass_M2L d true 1 t) w) l x) (q, s)
+     = ci (p_loc w l x) (q, s) +n (if (1 <=? l) && (l <=? L) && zmem x (cells l) then farv l x (q, s) else 0%nat)) /\
+  (forall p y, ci (p_rhs (rrun (pass_M2L d true 1 t) w) p) y = ci (p_rhs w p) y).
+Proof.
+  intros Hinv. pose proof (el_M2L d Hd true H B mode t idx Hok Hpart Hrange 1 ltac:(lia)) as Hperm.
+  fold m2l_spec_p in Hperm.
+  assert (Hok' : Forall (peok allrd nordM) (elementary (pass_M2L d true 1 t))).
+  { apply Forall_forall. intros e He. apply (Permutation_in _ Hperm) in He.
+    destruct (m2l_spec_shape_p e He) as (l & x & b & code & ->). apply peok_M2L; [exact I|intros []]. }
+  destruct (rrun_counts d L _ _ _ Hok' w) as (HM & HL & HR).
+  repeat split.
+  - intros l x y. rewrite HM, (sumn_perm _ _ _ Hperm), sumn_zero; [lia|].
+    intros e He. destruct (m2l_spec_shape_p e He) as (l1 & x1 & b & code & ->). reflexivity.
+  - intros l x q s. rewrite HL, (sumn_perm _ _ _ Hperm), (m2l_sum_p w l x q s Hinv). reflexivity.
+  - intros p y. rewrite HR, (sumn_perm _ _ _ Hperm), sumn_zero; [lia|].
+    intros e He. destruct (m2l_spec_shape_p e He) as (l1 & x1 & b & code & ->). reflexivity.
+Qed.
+
+(* ------------------------------------------------------------------ *)
+(* 9. the near-field pass P2P with the periodic lists                  *)
+(* ------------------------------------------------------------------ *)
+Lemma pick_pc (F : Z -> nat) p : sumn (fun t' => pc t' p *n F t') (cells L) = b2n (valid p) *n F (lo p).
+Proof.
+  unfold ExactlyOnce.pc. destruct (valid p) eqn:Hv; cbn [andb].
+  - rewrite (sumn_ext_in _ (fun t' => if t' =? lo p then F t' else 0%nat)).
+    2:{ intros t' _. rewrite (Z.eqb_sym t'). destruct (lo p =? t'); cbn [b2n]; lia. }
+    rewrite sumn_pick_in; [cbn [b2n]; lia|apply t_cells_nodup; lia|apply t_lo_leaf; exact Hv].
+  - rewrite sumn_zero; reflexivity.
+Qed.
+
+Lemma nlist_sum_gen (g : Z -> bool) x q : In x (cells L) ->
+  sumn (fun sc => if zmem (fst sc) (cells L) then pc (fst sc) q *n b2n (g (snd sc)) else 0%nat)
+       (nlist_cell d true L true x)
+  = b2n (valid q) *n sumn (fun sc => b2n ((fst sc =? lo q) && g (snd sc))) (nlist_spec d true L true x).
+Proof.
+  intros Hx. pose proof (t_cells_range L x ltac:(lia) Hx) as Hr.
+  rewrite (sumn_perm _ _ _ (nlist_exact d true L true x Hd ltac:(lia) Hr)).
+  rewrite <- sumn_mul_l. apply sumn_ext_in. intros sc _. unfold ExactlyOnce.pc.
+  destruct (valid q) eqn:Hv; cbn [andb].
+  - destruct (Z.eqb_spec (lo q) (fst sc)) as [E|E].
+    + rewrite <- E. rewrite (proj2 (zmem_In _ _) (t_lo_leaf q Hv)), Z.eqb_refl. reflexivity.
+    + rewrite (proj2 (Z.eqb_neq (fst sc) (lo q))) by congruence. cbn [b2n andb].
+      destruct (zmem (fst sc) (cells L)); reflexivity.
+  - cbn [b2n]. destruct (zmem (fst sc) (cells L)); reflexivity.
+Qed.
+
+Lemma p2p_sum_p w p q s :
+  sumn (fun e => pcr d L w e p (q, s)) (spec_p2p d true L lvs)
+  = b2n (valid p && valid q) *n (upn d L (lo p) (lo q) s +n upn' d L (lo q) (lo p) s).
+Proof.
+  unfold spec_p2p. cbv zeta. rewrite <- (leaf_cells d H B mode t Hok). rewrite sumn_flat_map.
+  set (g1 := fun t' code => veqb s (img_shift d L t' (dec3 d code))).
+  set (g2 := fun t' code => veqb s (map Z.opp (img_shift d L t' (dec3 d code)))).
+  rewrite (sumn_ext_in _ (fun t' =>
+     pc t' p *n sumn (fun sc => if zmem (fst sc) (cells L) then pc (fst sc) q *n b2n (g1 t' (snd sc)) else 0%nat)
+                     (nlist_cell d true L true t')
+     +n pc t' q *n sumn (fun sc => if zmem (fst sc) (cells L) then pc (fst sc) p *n b2n (g2 t' (snd sc)) else 0%nat)
+                     (nlist_cell d true L true t'))).
+  2:{ intros t' Ht'. rewrite sumn_flat_map, <- !sumn_mul_l, <- sumn_add.
+      apply sumn_ext_in. intros sc _. rewrite sumn_if_list.
+      destruct (zmem (fst sc) (cells L)) eqn:Eb; [|lia]. apply zmem_In in Eb.
+      cbn [pcr]. rewrite !ci_tag, !t_cnt_parts_of by assumption. unfold g1, g2. lia. }
+  rewrite sumn_add, !pick_pc.
+  assert (A1 : b2n (valid p) *n sumn (fun sc => if zmem (fst sc) (cells L) then pc (fst sc) q *n b2n (g1 (lo p) (snd sc)) else 0%nat)
+                                     (nlist_cell d true L true (lo p))
+               = b2n (valid p) *n (b2n (valid q) *n upn d L (lo p) (lo q) s)).
+  { destruct (valid p) eqn:Hp; [|reflexivity].
+    rewrite (nlist_sum_gen (g1 (lo p)) (lo p) q) by (apply t_lo_leaf; exact Hp). reflexivity. }
+  assert (A2 : b2n (valid q) *n sumn (fun sc => if zmem (fst sc) (cells L) then pc (fst sc) p *n b2n (g2 (lo q) (snd sc)) else 0%nat)
+                                     (nlist_cell d true L true (lo q))
+               = b2n (valid q) *n (b2n (valid p) *n upn' d L (lo q) (lo p) s)).
+  { destruct (valid q) eqn:Hq; [|reflexivity].
+    rewrite (nlist_sum_gen (g2 (lo q)) (lo q) p) by (apply t_lo_leaf; exact Hq). reflexivity. }
+  rewrite A1, A2. destruct (valid p); destruct (valid q); cbn [andb b2n]; lia.
+Qed.
+
+Lemma inner_sum_p w p q s :
+  sumn (fun e => pcr d L w e p (q, s)) (spec_p2p_inner lvs) = innerv idx p q *n zb d s.
+Proof.
+  rewrite <- (inner_sum d Hd Hcap H B mode t idx HH1 Hok Hpart st0 p q), <- sumn_mul_r.
+  apply sumn_ext_in. intros e He. unfold spec_p2p_inner in He. apply in_map_iff in He. destruct He as (lf & <- & _).
+  cbn [pcr cr]. rewrite ci_tag. unfold zb. lia.
+Qed.
+
+Definition nearv (p : Z) (y : ival) : nat :=
+  b2n (valid p && valid (fst y)) *n (upn d L (lo p) (lo (fst y)) (snd y) +n upn' d L (lo (fst y)) (lo p) (snd y))
+  +n innerv idx p (fst y) *n zb d (snd y).
+
+Lemma p2p_spec_shape_p e : In e (spec_p2p d true L lvs ++ spec_p2p_inner lvs) ->
+  (exists a b c sp tp, e = EP2P a b c sp tp) \/ (exists a ps, e = EP2PInner a ps).
+Proof.
+  intros He. apply in_app_or in He. destruct He as [He|He].
+  - left. apply (spec_p2p_only d true L lvs e He).
+  - right. unfold spec_p2p_inner in He. apply in_map_iff in He. destruct He as (lf & <- & _). eauto.
+Qed.
+
+Lemma p2p_effect_p w :
+  (forall l x y, ci (p_mult (rrun (pass_P2P d true t) w) l x) y = ci (p_mult w l x) y) /\
+  (forall l x y, ci (p_loc (rrun (pass_P2P d true t) w) l x) y = ci (p_loc w l x) y) /\
+  (forall p q s, ci (p_rhs (rrun (pass_P2P d true t) w) p) (q, s) = ci (p_rhs w p) (q, s) +n nearv p (q, s)).
+Proof.
+  destruct (c_P2P d Hd true H B mode t HH1 Hok) as (_ & Hperm).
+  assert (Hok' : Forall (peok nordM nordM) (elementary (pass_P2P d true t))).
+  { apply Forall_forall. intros e He. apply (Permutation_in _ Hperm) in He.
+    destruct (p2p_spec_shape_p e He) as [(a & b & c & sp & tp & ->)|(a & ps & ->)];
+      [apply peok_P2P|apply peok_P2PInner]. }
+  destruct (rrun_counts d L _ _ _ Hok' w) as (HM & HL & HR).
+  repeat split.
+  - intros l x y. rewrite HM, (sumn_perm _ _ _ Hperm), sumn_zero; [lia|].
+    intros e He. destruct (p2p_spec_shape_p e He) as [(a & b & c & sp & tp & ->)|(a & ps & ->)]; reflexivity.
+  - intros l x y. rewrite HL, (sumn_perm _ _ _ Hperm), sumn_zero; [lia|].
+    intros e He. destruct (p2p_spec_shape_p e He) as [(a & b & c & sp & tp & ->)|(a & ps & ->)]; reflexivity.
+  - intros p q s. rewrite HR, (sumn_perm _ _ _ Hperm), sumn_app, p2p_sum_p, inner_sum_p. reflexivity.
+Qed.
+
+End PerCompose.
